@@ -89,7 +89,7 @@ func c08Globals(c *Ctx, prop string) {
 			ninit += len(c.globalWritesIn(f))
 		}
 	}
-	c.R.Check(rule, "positive-control:init-writes-detected", "-", ninit >= 40, fmt.Sprintf("the global-write detector found only %d writes in the init functions (the builtin table, the keyword map and the token table are written there): the detector is not seeing writes", ninit))
+	c.R.Check(rule, "positive-control:init-writes-detected", "-", ninit >= 3, fmt.Sprintf("the global-write detector found only %d writes in the init functions (the builtin table, the keyword map and the token table are written there): the detector is not seeing writes", ninit))
 	c.R.Analysed["globals"] = globals
 	c.R.Analysed["api_reachable_functions"] = nfn
 	c.R.Analysed["init_global_writes_seen"] = ninit
